@@ -169,7 +169,7 @@ func init() {
 			three := samplePaths(pathsWith(sp, func(p Path) bool { return nSteps(p) == 3 }), tierN(tier, 250, 3000), rng)
 			fl := samplePaths(filterPaths(tier, rng), tierN(tier, 350, 5000), rng)
 			fn := samplePaths(funcPaths(tier, rng), tierN(tier, 200, 3000), rng)
-			ps := dedupPaths(append(append(append(append(one2, three...), fl...), fn...), widePaths()...))
+			ps := dedupPaths(append(append(append(append(append(one2, three...), fl...), fn...), widePaths()...), holeSlicePaths()[:3]...))
 			jobs := evalJobs("c01", ps, "C01", tier, false, false)
 			// json.Number decoding on a sample
 			jobs = append(jobs, evalJobs("c01n", samplePaths(ps, tierN(tier, 150, 2000), rng), "C01", tier, false, true)...)
@@ -193,7 +193,7 @@ func init() {
 			fl := samplePaths(filterPaths(tier, rng), tierN(tier, 250, 4000), rng)
 			fn := samplePaths(funcPaths(tier, rng), tierN(tier, 250, 3000), rng)
 			holes = samplePaths(holes, tierN(tier, 150, 2000), rng)
-			ps := dedupPaths(append(append(append(append(holes, rest...), fl...), fn...), widePaths()...))
+			ps := dedupPaths(append(append(append(append(append(holes, rest...), fl...), fn...), widePaths()...), holeSlicePaths()...))
 			jobs := evalJobs("c03", ps, "C03", tier, false, false)
 			jobs = append(jobs, evalJobs("c03n", samplePaths(ps, tierN(tier, 150, 2000), rng), "C03", tier, false, true)...)
 			return jobs
